@@ -90,7 +90,9 @@ def main(argv=None):
             short = fname.split("::")[-1]
             lane = "L" if f["mode"] == "proof" else "V"
             ob = {"name": "%s:%s:%s" % (lane, uname, fname), "lane": lane, "backend": "verus+z3",
-                  "solver_s": f["smt_ms"] / 1000.0, "function": fname}
+                  "solver_s": f["smt_ms"] / 1000.0, "function": fname,
+                  # extracted from /repo (a real function) vs. a helper / lemma of the unit's prelude
+                  "real": short in (res.get("extracted_fns") or []), "source": unit.get("source")}
             names_seen.add(short)
             if f["ok"]:
                 ob["status"] = "discharged"
@@ -269,7 +271,8 @@ def main(argv=None):
             "samples": samples,
             "functions_under_contract": sorted(set(
                 [f for o in obligations for f in (o.get("functions") or [])] +
-                [o["function"] for o in obligations if o.get("function") and o["lane"] == "V"])),
+                [(o.get("source") or "") + "::" + o["function"] for o in obligations if o.get("function") and o["lane"] == "V" and o.get("real")])),
+            "verified_helpers": sorted(set(o["function"] for o in obligations if o.get("function") and o["lane"] == "V" and not o.get("real"))),
             "bounded": [{"obligation": o["name"], "bound": o.get("bound"), "status": o["status"],
                          "solver_s": o.get("solver_s")} for o in bounded],
             "known_findings": known_lines,
